@@ -10,6 +10,11 @@ The oracle is independent of the model and of the order in which the code lists 
 atom of the result as (original atom, lattice offset) from charge + position, and then checks counts, the multiset of
 atoms per lattice offset, the cell rows, one copy of every term per image inside that image with its type and extra
 fields, unchanged tables, identity for (1,1,1) and that the input object is not modified.
+Scale stream: the same kind of structures with cell and positions multiplied by 1e-10, 1e-6, 1e-3, 1e3 or 1e6 (a
+structure given in metres, nanometres, ...): nothing in the property depends on the unit of length.  There the oracle
+and the tie first divide every length exactly (as rationals) by the largest cell component, so that all comparisons
+are RELATIVE to the size of the cell.
+
 CLI stream (the property's anchors include mofun/cli/mofun_cli.py): a generated structure (orthorhombic or
 LAMMPS-triclinic) is written to a temporary .lmpdat, the real entry point runs in-process
 (`CliRunner().invoke(mofun_cli, [inp, out, "--replicate", a, b, c] (+ ["--mic", m]))`), the output is loaded with
@@ -36,7 +41,8 @@ RULE = ("random consistent Atoms, 1..6 atoms (quick) / 1..8 (thorough), unique c
         "bond/angle/dihedral/improper terms (one stream with all four), coefficient tables present or absent, extra "
         "columns; cells orthorhombic / LAMMPS-triclinic with positive or negative tilts / arbitrarily oriented "
         "(sheared, rows permuted); factors in {1..3}^3 (thorough {1..4}^3, product <= 27), two thirds of the cases "
-        "with unequal factors. Non-trivial = distinct input with a non-orthorhombic cell, unequal factors, product "
+        "with unequal factors; a stream of the same structures with all lengths scaled by 1e-10 .. 1e6 (compared "
+        "relative to the cell size). Non-trivial = distinct input with a non-orthorhombic cell, unequal factors, product "
         ">= 2 and at least one term. CLI stream: 12 (quick) / 48 (thorough) runs of the real command line with "
         "--replicate alone, together with --mic, and together with --extract-uc (cell taken from another file), "
         ".lmpdat and .cif inputs, orthorhombic and LAMMPS-triclinic cells.")
@@ -54,13 +60,34 @@ def vclose(u, v, tol=1e-9):
     return all(core.close(x, y, tol) for x, y in zip(u, v))
 
 
-def oracle_replicate(a, dims, r, a_after=None, a_before=None, tol=1e-9):
+def cell_scale(a):
+    """largest absolute cell component (exact)"""
+    return max(abs(F(v)) for row in a["cell"] for v in row)
+
+
+def rescaled(d, f):
+    """the dump with every length (positions, cell) multiplied exactly by the rational f"""
+    out = dict(d)
+    out["atoms"] = [dict(at, pos=[core.q(F(v) * f) for v in at["pos"]]) for at in d["atoms"]]
+    if d.get("cell") is not None:
+        out["cell"] = [[core.q(F(v) * f) for v in row] for row in d["cell"]]
+    return out
+
+
+def oracle_replicate(a, dims, r, a_after=None, a_before=None, tol=1e-9, rel=False):
     """a = dump before, r = {'ok': dump of a.replicate(dims)} / {'err':..}, a_after = dump of the input object after
-    the call. Returns None or a description of the violated clause."""
+    the call. Returns None or a description of the violated clause.  rel: compare lengths relative to the cell size
+    (both dumps are first divided exactly by the largest cell component)."""
     da, db, dc = dims
     if "ok" not in r:
         return "replicate%s raised %s" % (tuple(dims), r.get("err"))
     r = r["ok"]
+    if rel and a.get("cell") is not None:
+        if a_after is not None and a_after != (a_before if a_before is not None else a):
+            return "replicate modified the original object"
+        a_after = None
+        f = 1 / cell_scale(a)
+        a, r = rescaled(a, f), rescaled(r, f)
     n = len(a["atoms"])
     cell = a["cell"]
     # --- count
@@ -141,6 +168,55 @@ def canon_sorted(d):
     out["atoms"] = [d["atoms"][i] for i in order]
     out["terms"] = {k: sorted(({"a": [new[x] for x in t["a"]], "ty": t["ty"], "x": t["x"]} for t in d["terms"][k]),
                               key=lambda t: (t["a"], t["ty"], t["x"])) for k in d["terms"]}
+    return out
+
+
+def canon_by_image(d, a, dims, tol=1e-9):
+    """canonical form that does not depend on exact coordinates: atoms ordered by (original atom recognised by its
+    charge, lattice multiplier recognised within `tol`); falls back to canon_sorted when an atom cannot be placed"""
+    by_q = {at["q"]: x for x, at in enumerate(a["atoms"])}
+    box = list(itertools.product(range(dims[0]), range(dims[1]), range(dims[2])))
+    offs = {m: lattice(a["cell"], *m) for m in box}
+    keys = []
+    for at in d["atoms"]:
+        x = by_q.get(at["q"])
+        if x is None:
+            return canon_sorted(d)
+        dv = [F(p) - F(s0) for p, s0 in zip(at["pos"], a["atoms"][x]["pos"])]
+        ms = [m for m in box if vclose(dv, offs[m], tol)]
+        if len(ms) != 1:
+            return canon_sorted(d)
+        keys.append((x, ms[0]))
+    order = sorted(range(len(keys)), key=lambda i: keys[i])
+    new = {old: k for k, old in enumerate(order)}
+    out = dict(d)
+    out["atoms"] = [d["atoms"][i] for i in order]
+    out["terms"] = {k: sorted(({"a": [new[x] for x in t["a"]], "ty": t["ty"], "x": t["x"]} for t in d["terms"][k]),
+                              key=lambda t: (t["a"], t["ty"], t["x"])) for k in d["terms"]}
+    return out
+
+
+SCALES = ["1e-10", "1e-6", "1e-3", "1e3", "1e6"]
+
+
+def scaled_structure(aj, scale):
+    """cell and positions multiplied by `scale` in double precision (the structure expressed in another unit)"""
+    fs = float(scale)
+    out = dict(aj)
+    out["atoms"] = [dict(at, pos=[core.q(float(F(v)) * fs) for v in at["pos"]]) for at in aj["atoms"]]
+    out["cell"] = [[core.q(float(F(v)) * fs) for v in row] for row in aj["cell"]]
+    return out
+
+
+def scale_cases(ctx):
+    rng = ctx.rng
+    out = []
+    cellkinds = ["ortho", "tri+", "tri-", "rot"]
+    for s in range(ctx.n(60, 400)):
+        ck = cellkinds[s % 4]
+        a = gen.rand_atoms(rng, n=rng.randint(1, ctx.n(5, 7)), cell=ck, kinds=KINDS if s % 3 == 0 else None,
+                           term_density=rng.randint(1, 2))
+        out.append((scaled_structure(a, SCALES[s % len(SCALES)]), rand_dims(rng, 3, 12), ck, SCALES[s % len(SCALES)]))
     return out
 
 
@@ -342,6 +418,19 @@ def run(ctx, oracle_only=False):
             ctx.fail(bad, inp, observed=r)
         ops.append(inp)
         impls.append(r)
+    # the same in other units of length: everything relative to the cell size
+    for a, dims, ck, sc in scale_cases(ctx):
+        a = _norm(a)
+        inp = {"op": "replicate", "a": a, "dims": dims, "scale": sc}
+        r, side = _replicate(a, dims)
+        bad = oracle_replicate(a, dims, r, side.get("after"), side.get("before"), rel=True)
+        ctx.case(inp, nontrivial=(dims[0] * dims[1] * dims[2] >= 2))
+        ctx.count("scale:" + sc)
+        ctx.count("cell:" + ck)
+        if bad:
+            ctx.fail("lengths scaled by %s: %s" % (sc, bad), inp, observed=r)
+        ops.append(inp)
+        impls.append(r)
     # the command line: --replicate alone and together with --mic
     for c in cli_cases(ctx):
         c["a"] = _norm(c["a"])
@@ -362,9 +451,14 @@ def run(ctx, oracle_only=False):
         ctx.count("cell:none")
         ops.append(inp)
         impls.append(r)
-    models = ctx.lean.run([{k: v for k, v in o.items() if k != "via"} for o in ops])
+    models = ctx.lean.run([{k: v for k, v in o.items() if k not in ("via", "scale")} for o in ops])
     for inp, r, m in zip(ops, impls, models):
-        if "ok" in r and "ok" in m:
+        if "ok" in r and "ok" in m and inp.get("scale"):
+            f = 1 / cell_scale(inp["a"])
+            ref = rescaled(inp["a"], f)
+            ctx.compare("replicate", inp, {"ok": canon_by_image(rescaled(r["ok"], f), ref, inp["dims"])},
+                        {"ok": canon_by_image(rescaled(m["ok"], f), ref, inp["dims"])})
+        elif "ok" in r and "ok" in m:
             ctx.compare("replicate", inp, {"ok": canon_sorted(r["ok"])}, {"ok": canon_sorted(m["ok"])},
                         numeric_tol=CLI_TOL if inp.get("via") == "cli" else 1e-9)
         else:
@@ -389,4 +483,5 @@ def replay(ctx, rec):
             return False
         return oracle_replicate(a_ref, expected_cli_dims(a_ref, inp["dims"], inp.get("mic")), r, tol=CLI_TOL) is None
     r, side = _replicate(inp["a"], inp["dims"])
-    return oracle_replicate(inp["a"], inp["dims"], r, side.get("after"), side.get("before")) is None
+    return oracle_replicate(inp["a"], inp["dims"], r, side.get("after"), side.get("before"),
+                            rel=bool(inp.get("scale"))) is None
